@@ -50,7 +50,6 @@ pub fn validate_parts(case: &MuxCase, model: &[Vec<MSample>], ftyp_payload: &[u8
     let ftyp = dec_ftyp(ftyp_payload).map_err(|e| Failure::new("c02:ftyp", e))?;
     ensure!(ftyp.major == case.major && ftyp.minor == case.minor && ftyp.compat == case.compat, "c02:ftyp-fields", "ftyp fields differ from the configuration");
     let mvhd_b = moov.child("mvhd").ok_or_else(|| Failure::new("c02:no-mvhd", "moov without mvhd"))?;
-    ensure!(moov.children[0].typ == cc("mvhd"), "c02:mvhd-first", "mvhd is not the first child of moov");
     let mvhd = dec_mvhd(mvhd_b.payload(bytes)).map_err(|e| Failure::new("c02:mvhd", e))?;
     ensure!(mvhd.exact_len, "c02:mvhd-len", "mvhd payload length does not match its version");
     ensure!(mvhd.timescale == case.timescale, "c02:mvhd-timescale", "mvhd timescale {} != {}", mvhd.timescale, case.timescale);
